@@ -6,7 +6,6 @@ From Coq Require Import Lia.
 
 Definition LA : expr := LookAround Empty LookAhead.
 
-Definition is_alt (e : expr) : bool := match e with Alt _ => true | _ => false end.
 Definition is_behind (la : lookkind) : bool :=
   match la with LookBehind | LookBehindNeg => true | _ => false end.
 
@@ -19,7 +18,8 @@ Inductive inj : expr -> expr -> Prop :=
 | inj_concat es es' : Forall2 inj es es' -> inj (Concat es) (Concat es')
 | inj_alt es es' : Forall2 inj es es' -> inj (Alt es) (Alt es')
 | inj_group e e' : inj e e' -> inj (Group e) (Group e')
-| inj_look e e' la : inj e e' -> (is_behind la = true -> is_alt e' = is_alt e) ->
+| inj_look e e' la : inj e e' ->
+    (is_behind la = true -> is_alt e' = is_alt e /\ const_size e' = const_size e) ->
     inj (LookAround e la) (LookAround e' la)
 | inj_repeat e e' lo hi gr : inj e e' -> inj (Repeat e lo hi gr) (Repeat e' lo hi gr)
 | inj_atomic e e' : inj e e' -> inj (AtomicGroup e) (AtomicGroup e')
@@ -36,7 +36,8 @@ Hypothesis Pinsert : forall l1 l2 l1' l2', Forall2 inj l1 l1' -> Forall2 P l1 l1
 Hypothesis Pconcat : forall es es', Forall2 inj es es' -> Forall2 P es es' -> P (Concat es) (Concat es').
 Hypothesis Palt : forall es es', Forall2 inj es es' -> Forall2 P es es' -> P (Alt es) (Alt es').
 Hypothesis Pgroup : forall e e', inj e e' -> P e e' -> P (Group e) (Group e').
-Hypothesis Plook : forall e e' la, inj e e' -> P e e' -> (is_behind la = true -> is_alt e' = is_alt e) ->
+Hypothesis Plook : forall e e' la, inj e e' -> P e e' ->
+  (is_behind la = true -> is_alt e' = is_alt e /\ const_size e' = const_size e) ->
   P (LookAround e la) (LookAround e' la).
 Hypothesis Prepeat : forall e e' lo hi gr, inj e e' -> P e e' -> P (Repeat e lo hi gr) (Repeat e' lo hi gr).
 Hypothesis Patomic : forall e e', inj e e' -> P e e' -> P (AtomicGroup e) (AtomicGroup e').
@@ -114,11 +115,12 @@ Lemma first_some_ext {A B} (f h : A -> option B) l : (forall a, f a = h a) -> fi
 Proof. intros H. induction l as [|a l IH]; simpl; auto. now rewrite H, IH. Qed.
 
 (* the look-behind part of sem only looks at the alternatives of its body *)
-Lemma lookbehind_same e e' la : is_behind la = true -> is_alt e' = is_alt e -> same e e' ->
+Lemma lookbehind_same e e' la : is_behind la = true -> is_alt e' = is_alt e ->
+  const_size e' = const_size e -> same e e' ->
   (forall es es', e = Alt es -> e' = Alt es' -> Forall2 same es es') ->
   forall fuel g st, sem cx (LookAround e' la) fuel g st = sem cx (LookAround e la) fuel g st.
 Proof.
-  intros Hb Ha [Hn Hs] Halts fuel g [ix caps].
+  intros Hb Ha Hcs [Hn Hs] Halts fuel g [ix caps].
   assert (Hfound :
     match e' with
     | Alt es =>
@@ -147,7 +149,34 @@ Proof.
     clear - Halts. revert g.
     induction Halts as [|x x' r r' [Hnx Hsx] _ IH]; intros g; auto.
     rewrite Hnx, IH. erewrite first_some_ext; [reflexivity|]. intros j. now rewrite Hsx. }
-  destruct la; try discriminate; cbn [sem]; rewrite Hfound; reflexivity.
+  assert (Hsplit :
+    match e' with
+    | Alt es =>
+        (fix go (g : nat) (l : list expr) : list sst :=
+           match l with
+           | [] => []
+           | x :: r => match first_some (fun j => first_ending (sem cx x fuel g (j, caps)) ix) (backs cx ix ix)
+                       with Some s => [(ix, snd s)] | None => [] end ++ go (g + ngroups x) r
+           end) g es
+    | _ => []
+    end =
+    match e with
+    | Alt es =>
+        (fix go (g : nat) (l : list expr) : list sst :=
+           match l with
+           | [] => []
+           | x :: r => match first_some (fun j => first_ending (sem cx x fuel g (j, caps)) ix) (backs cx ix ix)
+                       with Some s => [(ix, snd s)] | None => [] end ++ go (g + ngroups x) r
+           end) g es
+    | _ => []
+    end).
+  { destruct e; destruct e'; simpl in Ha; try discriminate; try reflexivity.
+    match type of Halts with forall es es', Alt ?a = Alt es -> Alt ?b = Alt es' -> _ =>
+      specialize (Halts a b eq_refl eq_refl) end.
+    clear - Halts. revert g.
+    induction Halts as [|x x' r r' [Hnx Hsx] _ IH]; intros g; auto.
+    rewrite Hnx, IH. erewrite first_some_ext; [reflexivity|]. intros j. now rewrite Hsx. }
+  destruct la; try discriminate; cbn [sem]; rewrite Hfound, ?Hsplit, ?Ha, ?Hcs; reflexivity.
 Qed.
 
 Lemma sem_cat_LA fuel g l st : sem_cat cx fuel g (LA :: l) st = sem_cat cx fuel g l st.
@@ -217,8 +246,8 @@ Proof.
     destruct la.
     + intros fuel g [ix caps]. cbn [sem]. now rewrite Hs.
     + intros fuel g [ix caps]. cbn [sem]. now rewrite Hs.
-    + apply lookbehind_same; [reflexivity|apply H0; reflexivity|split; auto|exact Halts].
-    + apply lookbehind_same; [reflexivity|apply H0; reflexivity|split; auto|exact Halts].
+    + apply lookbehind_same; [reflexivity|apply H0; reflexivity|apply H0; reflexivity|split; auto|exact Halts].
+    + apply lookbehind_same; [reflexivity|apply H0; reflexivity|apply H0; reflexivity|split; auto|exact Halts].
   - destruct IHinj as [[Hn Hs] _]. split; [|intros; discriminate]. split; [simpl; lia|].
     intros fuel g [ix caps]. cbn [sem].
     rewrite (rep_must_ext (sem cx e' fuel g) (sem cx e fuel g)) by (intros; apply Hs).
